@@ -1,6 +1,10 @@
 package checks
 
-import "verif/internal/ref/boxwalk"
+import (
+	"encoding/binary"
+
+	"verif/internal/ref/boxwalk"
+)
 
 // The committed don't-care list that property C01 refers to: bits of an accepted byte string that
 // re-encoding is allowed to change. Each row names a box type, an optional version, a payload offset
@@ -165,16 +169,34 @@ func dontCareMask(typ string, ver, poff int, x []byte, i int) byte {
 		m |= dec3Mask(p, poff)
 	case "sgpd":
 		// CencSampleEncryptionInformationGroupEntry starts with reserved(8) (ISO/IEC 23001-7 6)
-		if len(p) >= 16 && string(p[4:8]) == "seig" {
-			off := 12
-			if ver >= 1 {
-				off = 16
-			}
+		// (first byte of every entry; entries have default_length or their own description_length)
+		if len(p) >= 16 && string(p[4:8]) == "seig" && ver >= 1 {
+			hdr := 12
 			if ver >= 2 {
-				off = 20
+				hdr = 16
 			}
-			if poff == off {
-				m |= 0xff
+			if len(p) < hdr+4 {
+				break
+			}
+			defLen := int(binary.BigEndian.Uint32(p[8:12]))
+			count := int(binary.BigEndian.Uint32(p[hdr : hdr+4]))
+			pos := hdr + 4
+			for k := 0; k < count && pos < len(p) && pos <= poff; k++ {
+				l := defLen
+				if defLen == 0 {
+					if pos+4 > len(p) {
+						break
+					}
+					l = int(binary.BigEndian.Uint32(p[pos : pos+4]))
+					pos += 4
+				}
+				if poff == pos {
+					m |= 0xff
+				}
+				if l <= 0 {
+					break
+				}
+				pos += l
 			}
 		}
 	case "silb":
